@@ -23,7 +23,6 @@ import jinja2.parser
 from jinja2 import (
     Environment,
     FileSystemLoader,
-    TemplateError,
     TemplateSyntaxError,
     meta,
 )
@@ -32,7 +31,11 @@ from jinja2.ext import Extension
 from jinja2.sandbox import SandboxedEnvironment
 
 from sqlfluff.core.config import FluffConfig
-from sqlfluff.core.errors import SQLFluffUserError, SQLTemplaterError
+from sqlfluff.core.errors import (
+    SQLFluffSkipFile,
+    SQLFluffUserError,
+    SQLTemplaterError,
+)
 from sqlfluff.core.formatter import FormatterInterface
 from sqlfluff.core.helpers.file import get_encoding
 from sqlfluff.core.helpers.slice import is_zero_slice, slice_length
@@ -826,12 +829,15 @@ class JinjaTemplater(PythonTemplater):
                     in_str, syntax_tree, undefined_variables
                 ),
             )
-        except (TemplateError, TypeError, ValueError) as err:
-            # ValueError is caught to handle multi-variable for-loop unpacking
-            # failures, e.g. {% for key, val in undefined_var.items() %} raises
-            # "not enough values to unpack" because the undefined stub yields
-            # only one element. We surface this as a user-friendly error rather
-            # than an unhandled crash.
+        except SQLFluffSkipFile:
+            # Not a failure of the template: let the linter skip the file.
+            raise
+        except Exception as err:
+            # Rendering runs the user's template code, which can raise anything:
+            # e.g. {% for key, val in undefined_var.items() %} raises a ValueError
+            # ("not enough values to unpack", because the undefined stub yields
+            # only one element) and {{ 1 // 0 }} a ZeroDivisionError. We surface
+            # all of these as a user-friendly error rather than an unhandled crash.
             templater_logger.info("Unrecoverable Jinja Error: %s", err, exc_info=True)
             raise SQLTemplaterError(
                 (
